@@ -25,7 +25,7 @@ RULE = ("a case places secret fields (aes / xor / best) at the root, in sub-sche
         "opens during dumps/loads contains no key file other than the expected ones, (4) a fresh configuration (new "
         "objects; 1 in 40 in a new process) loading the document gets every plaintext back; non-trivial = >= 2 "
         "non-empty secrets at >= 2 depths; distinct = distinct case content")
-REQUIRED = ("key_file_names_reported_by_the_configurations_checked", "layout:section-used-on-its-own-before-joining-the-tree", "key_file_names_a_shell_would_expand", "failed_loads_before_key_rotation", "saves_after_key_files_were_replaced", "items_handed_over_to_a_second_configuration", "sections_saved_without_a_reference_to_the_root", "saves_failed_for_missing_key_directory", "layout:two-types-one-schema-different-keyfiles", "layout:only-keyed-subtrees", "layout:transplanted-subconfig", "layout:names-inherited-file", "documents_scanned_for_tokens", "ciphertexts_decrypted_by_oracle", "keyfile_open_sets_checked",
+REQUIRED = ("layout:item-used-on-its-own-before-joining-the-list", "key_file_names_reported_by_the_configurations_checked", "layout:section-used-on-its-own-before-joining-the-tree", "key_file_names_a_shell_would_expand", "failed_loads_before_key_rotation", "saves_after_key_files_were_replaced", "items_handed_over_to_a_second_configuration", "sections_saved_without_a_reference_to_the_root", "saves_failed_for_missing_key_directory", "layout:two-types-one-schema-different-keyfiles", "layout:only-keyed-subtrees", "layout:transplanted-subconfig", "layout:names-inherited-file", "documents_scanned_for_tokens", "ciphertexts_decrypted_by_oracle", "keyfile_open_sets_checked",
             "reloads_compared", "layout:root-ctor", "layout:root-attr", "layout:sub", "layout:ctype", "layout:default",
             "secrets_in_list_items", "rekey_after_first_use", "new_process_reloads")
 ASSUMPTIONS = ["only files under the sandbox root are considered; HOME is redirected so the default key file is sandboxed",
@@ -106,6 +106,7 @@ def generate(rng, ctx):
     # after the saves: (a failed load, then) every key file gets new content from outside and the SAME object is saved again
     layout["rotate"] = rng.choice([None, None, "plain", "after-failed-load"])
     layout["standalone_a"] = rng.random() < 0.25
+    layout["standalone_item"] = rng.random() < 0.3
     # ... and items are handed over, as objects, to a second configuration that names another key file
     layout["move_items"] = rng.random() < 0.3
     fmts = rng.sample(trees.FORMATS, rng.choice([1, 2, 3]))
@@ -290,6 +291,27 @@ def run(case, ctx, res):
             return
         cfg.a = free
         res.count("layout:section-used-on-its-own-before-joining-the-tree")
+    if lay.get("standalone_item") and case["values"]["items"]:
+        # an item is first built and used on its own (the default key file serves), then it takes the place of the first item of
+        # the tree's list: it follows the tree from then on
+        first = case["values"]["items"][0]
+        free = schema.items.field()
+        free.n, free.s = first["n"], first["s"]
+        free.sub.s = first["sub"]["s"]
+        try:
+            free.dumps("json")
+        except Exception as exc:
+            res.viol("M-save", "dumps-raises:standalone-item", "dumps of an item configuration built on its own raised %r" % (exc,))
+            return
+        how = case["r"] % 3
+        if how == 0:
+            cfg.items[0] = free
+        elif how == 1:
+            cfg.items.pop(0)
+            cfg.items.insert(0, free)
+        else:
+            cfg.items = [free] + list(cfg.items)[1:]
+        res.count("layout:item-used-on-its-own-before-joining-the-list")
     for name in ("root-ctor" if lay["root"] == "ctor" else "root-attr" if lay["root"] == "attr" else "default",):
         res.count("layout:" + name)
     if lay["a"] or lay["ab"]:
